@@ -2,6 +2,7 @@ import Mathlib.Tactic
 import Sentinel.Lemmas.WarmUp
 import Sentinel.Lemmas.WarmUpHist
 import Sentinel.Lemmas.WarmUpRun
+import Sentinel.Lemmas.WarmUpReload
 /-!
 # C11 — adaptive thresholds stay inside their configured envelope
 
@@ -885,5 +886,29 @@ theorem history_throttled_admission (total : ℤ) (ops : List Op) (ns b : ℕ) (
     simp only [Option.some.injEq] at e
     subst e
     exact ⟨k1, k2⟩
+
+
+/-- **window cap along histories with reloads** (default 1 s view, Reject): the warm-up rule of a fresh resource is loaded at `t0` and
+    afterwards reloaded any number of times — unchanged (controller and tokens kept) or with other threshold / period / cold factor (fresh,
+    cold calculator on the same statistic) — between requests of any batch size at any non-decreasing instants. If every loaded rule is
+    non-degenerate with threshold at most `B`, every window of two consecutive 500 ms buckets (every aligned second in particular) holds at
+    most `B` admitted tokens. (`B` = the largest threshold in force; a window can straddle a reload that lowers the threshold.) -/
+theorem window_cap_with_reloads (B T : ℚ) (p cf iv t0 : ℕ) (hnd : Known.degenerateNaN (mkCfg T p cf) = false) (hTB : T ≤ B)
+    (h0 : 1000 ≤ t0) (ops : List DOp) (hm : MonoD t0 ops) (hr : RulesBelow B ops) (w : ℕ) :
+    (passIn (runD (loadRuleG ({} : Sys ℚ) t0 (.wu T p cf iv) none true 2 1000 false, []) ops).2 w (w + 500) : ℚ) ≤ B ∧
+    passIn (runD (loadRuleG ({} : Sys ℚ) t0 (.wu T p cf iv) none true 2 1000 false, []) ops).2 w (w + 500) ≤ ⌊B⌋₊ := by
+  have hwf := mkCfg_wf T p cf hnd
+  have d : DInv B t0 (loadRuleG ({} : Sys ℚ) t0 (.wu T p cf iv) none true 2 1000 false, []) t0 := by
+    refine ⟨⟨mkCfg T p cf, ⟨rfl, rfl, trivial, by simp, le_refl _, h0, le_refl _, ?_⟩, hwf, hTB⟩, rfl, rfl, ?_⟩
+    · show (0 : ℤ) ≤ _; positivity
+    · intro w
+      have : passIn ([] : Log) w (w + 500) = 0 := by simp [passIn]
+      rw [this]
+      have hp : (0 : ℚ) < T := hwf.Tpos
+      push_cast
+      linarith
+  have h := dinv_run ops d hm hr w
+  exact ⟨h, Nat.le_floor h⟩
+
 
 end Sentinel.C11
